@@ -91,8 +91,11 @@ def execute(prop, tier, plan, seed, wdir):
                 res["violations"].append({"replay": path, "what": "the code under test panicked: " + out[-300:].strip().replace(chr(10), ' ')})
                 continue
         else:
-            rc, summary, hang, out = harness_run(scen, trace, b.get("run_timeout", 900), b.get("runner", "run"))
-        batch = {"batch": name, "runs": len(summary), "steps": sum(s["steps"] for s in summary), "stuck": sum(1 for s in summary if s["stuck"])}
+            lockfile = f"{wdir}/locks-{name}.ndjson" if plan.get("locks") and b.get("runner", "run") == "run" else None
+            rc, summary, hang, out = harness_run(scen, trace, b.get("run_timeout", 900), b.get("runner", "run"), locks=lockfile)
+        batch = {"batch": name, "runs": len(summary), "steps": sum(s["steps"] for s in summary), "stuck": sum(1 for s in summary if s["stuck"]),
+                 "imprecise": sum(1 for s in summary if s.get("imprecise"))}
+        cov["runs_imprecise"] = cov.get("runs_imprecise", 0) + batch["imprecise"]
         if hang is not None:
             batch["hang"] = hang["scenario"]["name"]
             if plan.get("hang_is_violation"):
@@ -135,6 +138,22 @@ def execute(prop, tier, plan, seed, wdir):
             path = write_replay(prop, name, scen, v["run"], v, extra=b.get("direct"))
             res["violations"].append({"replay": path, "what": f"{what} (batch {name}, run {v['run']}, step {v['i']}, {v['n']} step(s))"})
 
+    if plan.get("locks"):
+        lock_analysis(prop, plan, wdir, seed, res, cov)
+    for st in plan.get("stress", {}).get(tier, []):
+        from check import run as shrun, BIN
+        rc, out = shrun(f"{BIN} stress --seed {seed} --rounds {st['rounds']} --threads {st['threads']} --ops {st['ops']} --timeout-ms {st.get('timeout_ms', 20000)}", 3600)
+        info = {}
+        for line in out.splitlines():
+            if line.startswith("STRESS "):
+                info = json.loads(line[7:])
+        cov.setdefault("stress", []).append(info | {"threads": st["threads"], "ops_per_thread": st["ops"]})
+        if rc == 3 or info.get("stall"):
+            path = f"{WORK}/replay/{prop}-stress.json"
+            json.dump({"property": prop, "verdict": "stall", "cmd": f"stress --seed {seed} ...", "info": info}, open(path, "w"))
+            res["violations"].append({"replay": path, "what": "free-running stress stalled (deadlock or lost acknowledgement): " + str(info.get("stall"))})
+        elif rc != 0:
+            res["tool_errors"].append(f"stress run failed rc={rc}: {out[-300:]}")
     cov["known_findings_reproduced"] = reproduced
     for k in known:
         n = reproduced[k["id"]]
@@ -145,3 +164,69 @@ def execute(prop, tier, plan, seed, wdir):
     cov["exhaustive"] = False
     cov["rule"] = plan.get("rule", "")
     return res
+
+
+def lock_analysis(prop, plan, wdir, seed, res, cov):
+    """C18: lock programs extracted from the recorded lock events -> Locks.tla (TLC) -> deadlock-freedom of all interleavings."""
+    import glob, subprocess, re
+    sys_path = f"{VERIF}/tools"
+    import sys
+    sys.path.insert(0, sys_path)
+    from locks import extract
+    merged = f"{wdir}/locks-all.ndjson"
+    with open(merged, "w") as out:
+        offset = 0
+        for f in sorted(glob.glob(f"{wdir}/locks-*.ndjson")):
+            if f == merged:
+                continue
+            mx = 0
+            for line in open(f):
+                try:
+                    r = json.loads(line)
+                except Exception:
+                    continue      # a run that hung leaves a truncated last line
+                mx = max(mx, r["run"])
+                r["run"] += offset
+                out.write(json.dumps(r) + "\n")
+            offset += mx
+    ex = extract(merged)
+    progs = f"{wdir}/lock-programs.json"
+    json.dump(ex, open(progs, "w"))
+    ref = json.load(open(f"{VERIF}/spec/locks_reference.json"))["programs"]
+    refset = {(p["role"], json.dumps(p["ops"])) for p in ref}
+    new = [p for p in ex["programs"] if (p["role"], json.dumps(p["ops"])) not in refset]
+    seen = {(p["role"], json.dumps(p["ops"])) for p in ex["programs"]}
+    cov["lock_events"] = ex["events"]
+    cov["critical_sections"] = ex["sections"]
+    cov["lock_programs_extracted"] = [{"role": p["role"], "seen": p["seen"], "where": p["where"],
+                                       "ops": " ".join(f"{o[0]}:{o[1]}{'w' if o[2] else 'r'}" for o in p["ops"])} for p in ex["programs"]]
+    cov["lock_programs_not_in_reference"] = [c for c, p in zip(cov["lock_programs_extracted"], ex["programs"]) if (p["role"], json.dumps(p["ops"])) not in refset]
+    cov["reference_programs_not_seen"] = len([1 for p in ref if (p["role"], json.dumps(p["ops"])) not in seen])
+    if not ex["programs"]:
+        res["tool_errors"].append("no nested lock program was extracted: the lock hooks reported nothing (vacuous)")
+        return
+    cmd = (f"timeout -k 10 600 tlc -workers 8 -metadir {wdir}/mc-locks/meta -cleanup -noGenerateSpecTE -config MC_LocksTrace.cfg MC_LocksTrace.tla")
+    os.makedirs(f"{wdir}/mc-locks", exist_ok=True)
+    env = dict(os.environ)
+    env["LOCKS"] = progs
+    t = time.time()
+    p = subprocess.run(cmd, shell=True, cwd=f"{VERIF}/spec", env=env, stdout=subprocess.PIPE, stderr=subprocess.STDOUT, text=True)
+    out = p.stdout
+    open(f"{wdir}/mc-locks/tlc.out", "w").write(out)
+    m = re.search(r"(\d+) states generated, (\d+) distinct states found", out)
+    rec = {"module": "MC_LocksTrace", "cfg": "MC_LocksTrace", "constants": "5 thread slots (worker, sweeper, consumer, 2 callers) x the extracted programs, all interleavings",
+           "generated": int(m.group(1)) if m else None, "distinct": int(m.group(2)) if m else None, "wall_s": round(time.time() - t, 1),
+           "ok": "No error has been found" in out, "violated": re.findall(r"Invariant (\w+) is violated", out), "exhaustive": True}
+    cov["mc_instances"].append(rec)
+    cov["states"] += rec["distinct"] or 0
+    cov["transitions"] += rec["generated"] or 0
+    if rec["violated"]:
+        path = f"{WORK}/replay/{prop}-lockorder.json"
+        idx = out.find("Error: Invariant")
+        json.dump({"property": prop, "verdict": "potential deadlock", "violated": rec["violated"], "programs": ex["programs"],
+                   "tlc_counterexample": out[idx:idx + 6000]}, open(path, "w"), indent=1)
+        what = ("a cycle of lock / queue waits is reachable among the critical sections recorded from the code"
+                if "NoDeadlock" in rec["violated"] else "a thread re-acquires a lock it already holds")
+        res["violations"].append({"replay": path, "what": what + f" (new programs: {[c['ops'] for c in cov['lock_programs_not_in_reference']][:3]})"})
+    elif not rec["ok"]:
+        res["tool_errors"].append(f"Locks.tla run failed; see {wdir}/mc-locks/tlc.out")
